@@ -1,4 +1,4 @@
-//! record <driver> <seed> <events> <out.ndjson>
+//! record <driver> <seed> <events> <out.ndjson> [slice nslices [rot]]   (the last three: driver grid only)
 //! Plays the real engine and writes one NDJSON event per public transition.
 
 use arimaa_engine_step::*;
@@ -20,6 +20,10 @@ fn main() {
     let mut rng = Rng::new(seed);
     let repo_tests = std::env::var("VERIF_REPO").unwrap_or_else(|_| "/repo".to_string()) + "/src/engine_tests.rs";
     let diagrams = scrape_diagrams(&repo_tests);
+    let slice: usize = args.get(5).map(|x| x.parse().expect("slice")).unwrap_or(0);
+    let nslices: usize = args.get(6).map(|x| x.parse().expect("nslices")).unwrap_or(1);
+    let rot: usize = args.get(7).map(|x| x.parse().expect("rot")).unwrap_or((seed / 1000 % 7) as usize);
+    let mut grid: Vec<(usize, GridItem)> = Vec::new();
     {
         let mut g = Game::new(&mut tr);
         let mut round = 0usize;
@@ -100,6 +104,61 @@ fn main() {
                         break;
                     }
                     setup_all(&mut g);
+                }
+                "grid" => {
+                    // the situation grid (positions.rs): enumerated, not sampled; this process takes the items
+                    // i with i % nslices == slice.  Root lists, the intended step, and every child of the
+                    // follow-up state (push completions / pull completions) are observed.
+                    if grid.is_empty() {
+                        for kind in 0..3 {
+                            for it in grid_positions(kind, rot) {
+                                grid.push((kind, it));
+                            }
+                        }
+                    }
+                    let i = (round - 1) * nslices + slice;
+                    if i >= grid.len() {
+                        break;
+                    }
+                    let (kind, (c, gold, sq, d)) = grid[i];
+                    if g.reset_parsed(&c, gold, 2 + i % 40, ["grid-push", "grid-pull", "grid-step"][kind]) && kind < 2 {
+                        let a = Action::Move(Square::from_index(sq as u8), d);
+                        let offered = guarded(|| g.top().valid_actions().contains(&a)).unwrap_or(false);
+                        if offered && g.step(&a) {
+                            let next = g.top().clone();
+                            if let Ok(list) = guarded(|| next.valid_actions_no_rep()) {
+                                for b in list.iter() {
+                                    // after a pull lead only the enemy steps are of interest (do they count as pulls?)
+                                    let enemy = match b {
+                                        Action::Move(bs, _) => {
+                                            let v = c[bs.index()];
+                                            v != 0 && (v <= 6) != gold
+                                        }
+                                        _ => false,
+                                    };
+                                    if kind == 1 && !enemy {
+                                        continue;
+                                    }
+                                    if !g.probe(b) {
+                                        break;
+                                    }
+                                }
+                            }
+                        }
+                    }
+                }
+                "wide" => {
+                    // extremal positions (positions.rs): as many actions / own steps / pushes in one direction /
+                    // pushers as local search finds; the root and a short random continuation are observed
+                    let gold = rng.chance(0.5);
+                    let c = wide_position(&mut rng, round % 7, gold);
+                    if !legal_position(&c) {
+                        continue;
+                    }
+                    let mn = start_move_number(&mut rng);
+                    if g.reset_parsed(&c, gold, mn, "wide") {
+                        play(&mut g, &mut rng, Policy::Random, 2, 0.0);
+                    }
                 }
                 "focus" => {
                     // two-ply probes around one intended first step (a push start or a step that may lead a
